@@ -28,7 +28,77 @@ use crate::{
     world::{gen_ent, world, Ent, GenCfg},
 };
 
-pub struct Session;
+/// `enumerate`: instead of sampling, the run index is decoded into one combination of
+/// side x accept-callback outcome x local fault (none, or one of 4 kinds before frame 0..2) x
+/// script (every sequence of up to 2 frames - thorough: 3 - over 13 representative frames),
+/// so that a batch of exactly that many runs covers the bounded space completely.
+pub struct Session {
+    pub enumerate: bool,
+}
+
+pub const ENUM_SYMBOLS: u64 = 13;
+pub fn enum_space(max_len: u32) -> u64 {
+    let scripts: u64 = (0..=max_len).map(|l| ENUM_SYMBOLS.pow(l)).sum();
+    2 * 4 * 13 * scripts
+}
+
+fn enum_frame(sym: u64) -> Frame {
+    let e = |k: u8, ts: u64| Ent { d: 0, a: 0, k: vec![k], ts, c: 1 };
+    match sym {
+        0 => Frame::Init { known: true, carry: vec![] },
+        1 => Frame::Init { known: false, carry: vec![] },
+        2 => Frame::Init { known: true, carry: vec![e(b'a', 3)] },
+        3 => Frame::SyncCarry { es: vec![e(b'b', 4)] },
+        4 => Frame::SyncCarry { es: vec![] },
+        5 => Frame::SyncRanges { n: 2 },
+        6 => Frame::Abort { reason: 0 },
+        7 => Frame::Abort { reason: 1 },
+        8 => Frame::Abort { reason: 2 },
+        9 => Frame::Garbage { len: 5, fill: 0xAA },
+        10 => Frame::Garbage { len: 0, fill: 0 },
+        11 => Frame::Oversized,
+        _ => Frame::Truncated { announce: 20, have: 3 },
+    }
+}
+
+fn gen_enumerated(rng: &mut Rng, tier: Tier) -> SessionPlan {
+    let g = GenCfg { docs: 1, authors: 2, max_key_len: 2, ts_values: 5, marker_pct: 20, contents: 3 };
+    let max_len = tier.pick(2, 3) as u32;
+    let mut i = rng.run % enum_space(max_len);
+    let sut_is_alice = i % 2 == 0;
+    i /= 2;
+    let accept = (i % 4) as u8;
+    i /= 4;
+    let f = i % 13;
+    i /= 13;
+    let local_fault = if f == 0 { None } else { Some((((f - 1) / 4) as usize, ((f - 1) % 4) as u8)) };
+    // i now indexes the scripts: first those of length 0, then 1, ...
+    let mut len = 0u32;
+    while i >= ENUM_SYMBOLS.pow(len) {
+        i -= ENUM_SYMBOLS.pow(len);
+        len += 1;
+    }
+    let mut frames = Vec::new();
+    for _ in 0..len {
+        frames.push(enum_frame(i % ENUM_SYMBOLS));
+        i /= ENUM_SYMBOLS;
+    }
+    SessionPlan {
+        seed: rng.next_u64(),
+        sut_is_alice,
+        peer: PeerKind::Script(frames),
+        sut_items: (0..rng.urange(0, 4)).map(|_| gen_ent(rng, &g)).collect(),
+        peer_items: (0..rng.urange(0, 4)).map(|_| gen_ent(rng, &g)).collect(),
+        chunk: *rng.pick(&[1usize, 7, 4096]),
+        cut_to_sut: None,
+        cut_from_sut: None,
+        cut_in_frame: None,
+        local_fault,
+        accept,
+        sut_doc_known: true,
+        sut_sync: true,
+    }
+}
 
 #[derive(Serialize, Deserialize, Clone, Debug, PartialEq)]
 pub enum Frame {
@@ -105,10 +175,13 @@ fn gen_frame(rng: &mut Rng, g: &GenCfg) -> Frame {
 impl Scenario for Session {
     type Plan = SessionPlan;
     fn name(&self) -> String {
-        "session".into()
+        if self.enumerate { "session-enum".into() } else { "session".into() }
     }
 
     fn gen(&self, rng: &mut Rng, tier: Tier) -> SessionPlan {
+        if self.enumerate {
+            return gen_enumerated(rng, tier);
+        }
         let g = GenCfg { docs: 1, authors: 2, max_key_len: 2, ts_values: 5, marker_pct: 20, contents: 3 };
         let sut_is_alice = rng.chance(1, 2);
         let max_frames = tier.pick(4, 6);
@@ -241,6 +314,9 @@ impl Scenario for Session {
     }
 
     fn rule(&self) -> String {
+        if self.enumerate {
+            return "Enumeration, not sampling: run i is combination i of side under test (initiator / acceptor) x accept-callback outcome (allow, not found, already syncing, internal error) x local fault (none, or replica closed / sync disabled / actor shut down / shutdown queued ahead of the next request, placed before frame 0, 1 or 2) x scripted peer (every sequence of up to 2 frames - thorough: 3 - over 13 representative frames: Init known / unknown / carrying an entry, Sync with an entry / empty / made-up ranges, Abort x3, garbage of 5 and of 0 bytes, oversized prefix, truncated frame), then close; store contents and read chunking are drawn. The batch has exactly as many runs as there are combinations.".into();
+        }
         "A run picks the side under test (initiator or acceptor), a real counterpart or a scripted peer with up to 6 frames over {Init known/unknown, Sync valid, Sync made-up ranges, Abort x3, garbage, oversized, truncated} followed by close, read chunk sizes 1-4096, an optional cut (EOF or reset) after 0-400 bytes in each direction, or placed inside the k-th frame towards the side under test at 0-5 bytes after its start / 1-4 bytes before its end (a stream that ends or is reset strictly inside a frame must be reported as an error), an optional local fault (close replica / disable sync / shut actor down) before the k-th delivered frame, the accept callback outcome and whether the document is known and syncing. Non-trivial: a fault fired or the peer was scripted.".into()
     }
 }
